@@ -158,6 +158,10 @@ func verifySignature(resolver KeyResolver, signatureVerifier signatureVerifier,
 		return err
 	}
 
+	if pubKey == nil {
+		return fmt.Errorf("no public key resolved for kid %s", kid)
+	}
+
 	return signatureVerifier(pubKey, signingInput, signature)
 }
 
